@@ -17,7 +17,7 @@ def load_mutants(prop=None):
         ms = json.load(fh)['mutants']
     if prop:
         ms = [m for m in ms if prop in m['props']]
-    return ms
+    return [m for m in ms if m.get('status') != 'equivalent']
 
 
 def _one(args):
